@@ -508,9 +508,53 @@ fn exec_deeptext(input: &str, out: &mut CaseOut) {
     }
 }
 
+/// several hundred DISTINCT texts through each text entry point on one thread (valid filters - some padded with
+/// blanks and line breaks -, valid Zinc and Hayson documents, unit names, zone names): whatever an entry point
+/// keeps per thread between calls has been filled, evicted and refilled when the last ones arrive
+fn exec_manytexts(out: &mut CaseOut) {
+    use libhaystack::c_api::err::last_error_message;
+    use libhaystack::c_api::str::haystack_string_destroy;
+    use std::ffi::CString;
+    out.nontrivial = true;
+    out.stat("manytexts");
+    let drain = || unsafe {
+        let m = last_error_message();
+        if !m.is_null() {
+            haystack_string_destroy(m as *mut std::os::raw::c_char);
+        }
+    };
+    for n in 0..400usize {
+        let pad = ["", " ", "\n", "  \t", " \r\n"][n % 5];
+        let texts = [
+            format!("point and curVal > {n}{pad}"),
+            format!("{pad}site or equip and navName == \"n{n}\""),
+            format!("ref{n}->siteRef == @s{n}"),
+        ];
+        for t in &texts {
+            let c = CString::new(t.as_str()).unwrap();
+            let ok = unsafe { libhaystack::c_api::filter::haystack_filter_parse(c.as_ptr()).map(drop).is_some() };
+            if !ok {
+                out.fail("c_vs_rust", format!("haystack_filter_parse rejects the valid filter {t:?} (parse number {n} of this thread)"));
+            }
+            drain();
+        }
+        let z = CString::new(format!("{{a:{n} b:\"t{n}\" c:[{n},@r{n}]}}")).unwrap();
+        if unsafe { libhaystack::c_api::zinc::haystack_value_from_zinc_string(z.as_ptr()).map(drop).is_none() } {
+            out.fail("c_vs_rust", format!("haystack_value_from_zinc_string rejects a valid dict (document number {n} of this thread)"));
+        }
+        drain();
+        let j = CString::new(format!("{{\"a\":{n},\"b\":[\"t{n}\",{{\"_kind\":\"ref\",\"val\":\"r{n}\"}}]}}")).unwrap();
+        if unsafe { libhaystack::c_api::json::haystack_value_from_json_string(j.as_ptr()).map(drop).is_none() } {
+            out.fail("c_vs_rust", format!("haystack_value_from_json_string rejects a valid document (number {n} of this thread)"));
+        }
+        drain();
+    }
+}
+
 pub fn exec(label: &str, input: &str, out: &mut CaseOut) {
     POISON.store(true, std::sync::atomic::Ordering::Relaxed);
     match label {
+        "manytexts" => exec_manytexts(out),
         "deeptext" => exec_deeptext(input, out),
         "borrowed" => exec_borrowed(input.parse().unwrap_or(70), out),
         "longerr" => exec_longerr(out),
@@ -577,6 +621,7 @@ pub fn generate(ctx: &mut Ctx) {
     ctx.case("nulltable", "-");
     ctx.case("borrowed", "70");
     ctx.case("longerr", "-");
+    ctx.case("manytexts", "-");
     for depth in [200usize, 5000, 100_000] {
         for i in 0..ZINC_DEEP.len() {
             ctx.case("deeptext", &format!("z {depth} {i}"));
